@@ -1,5 +1,834 @@
 package main
 
-func genKeys(seed uint64, n int, path string) {}
-func execKeys(opsPath, outPath string)        {}
-func oracleKeys(opsPath, outPath string)      {}
+// Stream `keys`: validation (not proof) of the hypothesis KeyComplete of theorems cache_invisible /
+// key_injective_invisible for the REAL key functions (endpoints.EndpointBuilder.WriteHash/Key,
+// core clusterCache.Key, route.Cache.Key) as they are used by the real generators.
+//
+//	case <n> <world> <base>       a fresh FakeDiscoveryServer with mesh variant <world>, base proxy variant <base>
+//	pair <attr> <dir>             proxies P (base) and Q (base with exactly <attr> changed); dir=pq|qp
+//
+// For a pair (first, second): the shared real XdsCache is warmed by generating CDS+EDS+RDS for `first`
+// through the server's real generators; then CDS+EDS+RDS are generated for `second` with the warm
+// cache, the cache is emptied (ClearAll), and the same is generated again from scratch. If a key
+// function omits an attribute that generation reads, `second` is served an entry built for `first`
+// and the two outputs differ. The answer is `eq` or `diff:<type>/<resource>`; the Lean driver (the
+// spec side) answers `eq` for every pair.
+
+import (
+	"fmt"
+	"os"
+	"sort"
+	"strconv"
+	"strings"
+	"time"
+
+	corev3 "github.com/envoyproxy/go-control-plane/envoy/config/core/v3"
+	"google.golang.org/protobuf/proto"
+	"google.golang.org/protobuf/types/known/durationpb"
+
+	corev1 "k8s.io/api/core/v1"
+	metav1 "k8s.io/apimachinery/pkg/apis/meta/v1"
+	"k8s.io/apimachinery/pkg/runtime"
+	kfake "k8s.io/client-go/kubernetes/fake"
+
+	meshconfig "istio.io/api/mesh/v1alpha1"
+	kubesecrets "istio.io/istio/pilot/pkg/credentials/kube"
+	"istio.io/istio/pilot/pkg/features"
+	"istio.io/istio/pilot/pkg/model"
+	pxds "istio.io/istio/pilot/pkg/xds"
+	v3 "istio.io/istio/pilot/pkg/xds/v3"
+	txds "istio.io/istio/pilot/test/xds"
+	"istio.io/istio/pilot/test/xdstest"
+	"istio.io/istio/pkg/cluster"
+	"istio.io/istio/pkg/config/mesh"
+	kubelib "istio.io/istio/pkg/kube"
+	"istio.io/istio/pkg/kube/multicluster"
+	"istio.io/istio/pkg/network"
+	"istio.io/istio/pkg/spiffe"
+	"istio.io/istio/pkg/util/sets"
+	"verifharness/internal/quiet"
+	"verifharness/internal/wire"
+)
+
+type failer struct{ cleanups []func() }
+
+func (f *failer) Fail()                          { panic("harness: Fail") }
+func (f *failer) FailNow()                       { panic("harness: FailNow") }
+func (f *failer) Fatal(args ...any)              { panic(fmt.Sprint(args...)) }
+func (f *failer) Fatalf(format string, a ...any) { panic(fmt.Sprintf(format, a...)) }
+func (f *failer) Log(args ...any)                {}
+func (f *failer) Logf(format string, a ...any)   {}
+func (f *failer) TempDir() string                { d, _ := os.MkdirTemp("", "c06"); return d }
+func (f *failer) Helper()                        {}
+func (f *failer) Cleanup(fn func())              { f.cleanups = append(f.cleanups, fn) }
+func (f *failer) Skip(args ...any)               {}
+func (f *failer) done() {
+	for i := len(f.cleanups) - 1; i >= 0; i-- {
+		f.cleanups[i]()
+	}
+	f.cleanups = nil
+}
+
+const keysMesh = `
+apiVersion: networking.istio.io/v1
+kind: ServiceEntry
+metadata: {name: se-a, namespace: default}
+spec:
+  hosts: [a.example.com]
+  ports:
+  - {number: 80, name: http, protocol: HTTP}
+  - {number: 9000, name: tcp, protocol: TCP}
+  resolution: STATIC
+  location: MESH_INTERNAL
+  endpoints:
+  - {address: 10.0.0.1, locality: region1/zone1/sub1, network: net1, labels: {app: a, version: v1, tier: gold}, serviceAccount: sa-a}
+  - {address: 10.0.0.2, locality: region1/zone2/sub1, network: net1, labels: {app: a, version: v2, tier: silver}}
+  - {address: 10.0.1.1, locality: region2/zone1/sub1, network: net2, labels: {app: a, version: v1, tier: gold}}
+  - {address: 10.0.1.2, locality: region2/zone2/sub1, network: net2, labels: {app: a, version: v2, tier: silver}}
+---
+apiVersion: networking.istio.io/v1
+kind: ServiceEntry
+metadata: {name: se-b, namespace: ns-b}
+spec:
+  hosts: [b.example.com]
+  ports:
+  - {number: 8080, name: http-b, protocol: HTTP}
+  resolution: STATIC
+  location: MESH_INTERNAL
+  endpoints:
+  - {address: 10.1.0.1, locality: region1/zone1/sub1, network: net1, labels: {app: b}}
+  - {address: 10.1.0.2, locality: region1/zone2/sub1, network: net1, labels: {app: b}}
+  - {address: 10.1.1.1, locality: region2/zone1/sub1, network: net2, labels: {app: b}}
+---
+apiVersion: networking.istio.io/v1
+kind: ServiceEntry
+metadata: {name: se-dns, namespace: default}
+spec:
+  hosts: [dns.example.com]
+  ports:
+  - {number: 443, name: tls, protocol: TLS}
+  - {number: 80, name: http, protocol: HTTP}
+  resolution: DNS
+  location: MESH_EXTERNAL
+  endpoints:
+  - {address: one.example.net, locality: region1/zone1/sub1, network: net1}
+  - {address: two.example.net, locality: region2/zone1/sub1, network: net2}
+---
+apiVersion: networking.istio.io/v1
+kind: ServiceEntry
+metadata: {name: se-c, namespace: default}
+spec:
+  hosts: [c.example.com]
+  exportTo: ["."]
+  ports:
+  - {number: 80, name: http, protocol: HTTP}
+  resolution: STATIC
+  endpoints:
+  - {address: 10.2.0.1, locality: region1/zone1/sub1, network: net1}
+---
+apiVersion: networking.istio.io/v1
+kind: DestinationRule
+metadata: {name: dr-a, namespace: default}
+spec:
+  host: a.example.com
+  trafficPolicy:
+    outlierDetection: {consecutive5xxErrors: 3, interval: 10s}
+    loadBalancer:
+      localityLbSetting:
+        enabled: true
+        failoverPriority: ["tier", "topology.kubernetes.io/region"]
+  subsets:
+  - {name: v1, labels: {version: v1}}
+  - {name: v2, labels: {version: v2}, trafficPolicy: {connectionPool: {tcp: {maxConnections: 7}}}}
+---
+apiVersion: networking.istio.io/v1
+kind: DestinationRule
+metadata: {name: dr-a-nsb, namespace: ns-b}
+spec:
+  host: a.example.com
+  exportTo: ["."]
+  trafficPolicy:
+    connectionPool: {tcp: {maxConnections: 3}}
+    tls: {mode: ISTIO_MUTUAL}
+  subsets:
+  - {name: v1, labels: {version: v1}}
+---
+apiVersion: networking.istio.io/v1
+kind: DestinationRule
+metadata: {name: dr-b, namespace: ns-b}
+spec:
+  host: b.example.com
+  trafficPolicy:
+    outlierDetection: {consecutive5xxErrors: 3, interval: 10s}
+    loadBalancer:
+      localityLbSetting:
+        enabled: true
+---
+apiVersion: networking.istio.io/v1
+kind: DestinationRule
+metadata: {name: dr-dns, namespace: default}
+spec:
+  host: dns.example.com
+  trafficPolicy:
+    outlierDetection: {consecutive5xxErrors: 3, interval: 10s}
+    loadBalancer:
+      localityLbSetting: {enabled: true}
+---
+apiVersion: networking.istio.io/v1
+kind: DestinationRule
+metadata: {name: dr-sel, namespace: default}
+spec:
+  host: c.example.com
+  workloadSelector: {matchLabels: {app: client}}
+  trafficPolicy:
+    connectionPool: {tcp: {maxConnections: 11}}
+---
+apiVersion: networking.istio.io/v1
+kind: VirtualService
+metadata: {name: vs-a, namespace: default}
+spec:
+  hosts: [a.example.com]
+  http:
+  - match: [{headers: {x-v: {exact: "2"}}}]
+    route: [{destination: {host: a.example.com, subset: v2}}]
+  - route: [{destination: {host: a.example.com, subset: v1}}]
+---
+apiVersion: networking.istio.io/v1
+kind: VirtualService
+metadata: {name: vs-b, namespace: ns-b}
+spec:
+  hosts: [b.example.com]
+  exportTo: ["."]
+  http:
+  - route: [{destination: {host: b.example.com}}]
+    timeout: 3s
+---
+apiVersion: networking.istio.io/v1
+kind: Sidecar
+metadata: {name: sc-b, namespace: ns-b}
+spec:
+  egress:
+  - hosts: ["default/a.example.com", "ns-b/*"]
+---
+apiVersion: networking.istio.io/v1
+kind: Sidecar
+metadata: {name: sc-labelled, namespace: default}
+spec:
+  workloadSelector: {labels: {scoped: "yes"}}
+  egress:
+  - hosts: ["./a.example.com"]
+---
+apiVersion: security.istio.io/v1
+kind: PeerAuthentication
+metadata: {name: default, namespace: istio-system}
+spec:
+  mtls: {mode: STRICT}
+---
+apiVersion: security.istio.io/v1
+kind: PeerAuthentication
+metadata: {name: nsb, namespace: ns-b}
+spec:
+  mtls: {mode: PERMISSIVE}
+---
+apiVersion: networking.istio.io/v1alpha3
+kind: EnvoyFilter
+metadata: {name: ef-version, namespace: istio-system}
+spec:
+  configPatches:
+  - applyTo: CLUSTER
+    match:
+      context: SIDECAR_OUTBOUND
+      proxy: {proxyVersion: '^1\.2[0-9].*'}
+      cluster: {service: a.example.com}
+    patch:
+      operation: MERGE
+      value: {connect_timeout: 7s}
+---
+apiVersion: networking.istio.io/v1alpha3
+kind: EnvoyFilter
+metadata: {name: ef-labels, namespace: default}
+spec:
+  workloadSelector: {labels: {patched: "yes"}}
+  configPatches:
+  - applyTo: CLUSTER
+    match: {context: SIDECAR_OUTBOUND}
+    patch:
+      operation: MERGE
+      value: {connect_timeout: 9s}
+  - applyTo: HTTP_ROUTE
+    match: {context: SIDECAR_OUTBOUND}
+    patch:
+      operation: MERGE
+      value: {route: {timeout: 11s}}
+`
+
+const keysKube = `
+apiVersion: v1
+kind: Service
+metadata: {name: nl, namespace: default}
+spec:
+  clusterIP: 10.96.0.10
+  internalTrafficPolicy: Local
+  selector: {app: nl}
+  ports: [{name: http, port: 80, targetPort: 8080, protocol: TCP}]
+---
+apiVersion: v1
+kind: Service
+metadata: {name: cl, namespace: default}
+spec:
+  clusterIP: 10.96.0.11
+  selector: {app: nl}
+  ports: [{name: http, port: 80, targetPort: 8080, protocol: TCP}]
+---
+apiVersion: v1
+kind: Pod
+metadata: {name: nl-1, namespace: default, labels: {app: nl}}
+spec: {nodeName: node1, containers: [{name: c, image: x}]}
+status: {podIP: 10.3.0.1, podIPs: [{ip: 10.3.0.1}], phase: Running, conditions: [{type: Ready, status: "True"}]}
+---
+apiVersion: v1
+kind: Pod
+metadata: {name: nl-2, namespace: default, labels: {app: nl}}
+spec: {nodeName: node1x, containers: [{name: c, image: x}]}
+status: {podIP: 10.3.0.2, podIPs: [{ip: 10.3.0.2}], phase: Running, conditions: [{type: Ready, status: "True"}]}
+---
+apiVersion: discovery.k8s.io/v1
+kind: EndpointSlice
+metadata: {name: nl-x, namespace: default, labels: {kubernetes.io/service-name: nl}}
+addressType: IPv4
+endpoints:
+- addresses: [10.3.0.1]
+  nodeName: node1
+  conditions: {ready: true}
+  targetRef: {kind: Pod, name: nl-1, namespace: default}
+- addresses: [10.3.0.2]
+  nodeName: node1x
+  conditions: {ready: true}
+  targetRef: {kind: Pod, name: nl-2, namespace: default}
+ports: [{name: http, port: 8080, protocol: TCP}]
+---
+apiVersion: discovery.k8s.io/v1
+kind: EndpointSlice
+metadata: {name: cl-x, namespace: default, labels: {kubernetes.io/service-name: cl}}
+addressType: IPv4
+endpoints:
+- addresses: [10.3.0.1]
+  nodeName: node1
+  conditions: {ready: true}
+  targetRef: {kind: Pod, name: nl-1, namespace: default}
+ports: [{name: http, port: 8080, protocol: TCP}]
+`
+
+// the same Services seen from a second cluster (other cluster IPs, no local pods) and its own secrets
+const keysKube2 = `
+apiVersion: v1
+kind: Service
+metadata: {name: nl, namespace: default}
+spec:
+  clusterIP: 10.97.0.10
+  internalTrafficPolicy: Local
+  selector: {app: nl}
+  ports: [{name: http, port: 80, targetPort: 8080, protocol: TCP}]
+---
+apiVersion: v1
+kind: Service
+metadata: {name: cl, namespace: default}
+spec:
+  clusterIP: 10.97.0.11
+  selector: {app: nl}
+  ports: [{name: http, port: 80, targetPort: 8080, protocol: TCP}]
+`
+
+// optional configs a world variant may drop (bit i of the variant number)
+var keysOptional = []string{"name: dr-a,", "name: dr-a-nsb,", "name: dr-b,", "name: sc-b,", "name: ef-version,", "name: nsb,", "name: vs-a,", "name: dr-dns,"}
+
+func keysConfig(variant int) string {
+	docs := strings.Split(keysMesh, "\n---\n")
+	var keep []string
+	for _, d := range docs {
+		drop := false
+		for i, marker := range keysOptional {
+			if variant&(1<<i) != 0 && strings.Contains(d, marker) {
+				drop = true
+			}
+		}
+		if !drop {
+			keep = append(keep, d)
+		}
+	}
+	return strings.Join(keep, "\n---\n")
+}
+
+type keysWorld struct {
+	f   *failer
+	s   *txds.FakeDiscoveryServer
+	sds model.XdsResourceGenerator
+}
+
+func mkSecret(ns, name string, data map[string]string) *corev1.Secret {
+	d := map[string][]byte{}
+	for k, v := range data {
+		d[k] = []byte(v)
+	}
+	return &corev1.Secret{ObjectMeta: metav1.ObjectMeta{Name: name, Namespace: ns}, Data: d}
+}
+
+// newSDSGen wires the real SecretGen exactly as bootstrap does (credentials controller per cluster, the
+// server's XdsCache, the mesh config - the FakeDiscoveryServer passes a nil mesh config instead).
+func newSDSGen(f *failer, m *meshconfig.MeshConfig, cache model.XdsCache) model.XdsResourceGenerator {
+	mc := multicluster.NewFakeController()
+	creds := kubesecrets.NewMulticluster("Kubernetes", mc)
+	stop := make(chan struct{})
+	f.Cleanup(func() { close(stop) })
+	objs := map[cluster.ID][]runtime.Object{
+		"Kubernetes": {
+			mkSecret("default", "tls-a", map[string]string{"tls.crt": "cert-default", "tls.key": "key-default", "ca.crt": "ca-default"}),
+			mkSecret("ns-b", "tls-a", map[string]string{"tls.crt": "cert-nsb", "tls.key": "key-nsb", "ca.crt": "ca-nsb"}),
+			mkSecret("default", "tls-a-cacert", map[string]string{"cacert": "cacert-default"}),
+		},
+		"cluster2": {
+			mkSecret("default", "tls-a", map[string]string{"tls.crt": "cert-cluster2", "tls.key": "key-cluster2", "ca.crt": "ca-cluster2"}),
+		},
+	}
+	for _, id := range []cluster.ID{"Kubernetes", "cluster2"} {
+		client := kubelib.NewFakeClient(objs[id]...)
+		txds.DisableAuthorizationForSecret(client.Kube().(*kfake.Clientset))
+		mc.Add(id, client, stop)
+		client.RunAndWait(stop)
+	}
+	return pxds.NewSecretGen(creds, cache, "Kubernetes", m)
+}
+
+func newKeysWorld(variant int) *keysWorld {
+	features.XDSCacheMaxSize = 60000
+	features.EnableCDSCaching, features.EnableRDSCaching = true, true
+	f := &failer{}
+	m := mesh.DefaultMeshConfig()
+	m.OutboundTrafficPolicy = &meshconfig.MeshConfig_OutboundTrafficPolicy{Mode: meshconfig.MeshConfig_OutboundTrafficPolicy_ALLOW_ANY}
+	m.ServiceSettings = []*meshconfig.MeshConfig_ServiceSettings{{
+		Settings: &meshconfig.MeshConfig_ServiceSettings_Settings{ClusterLocal: true},
+		Hosts:    []string{"cl.default.svc.cluster.local"},
+	}}
+	if variant&256 != 0 {
+		m.DefaultConfig.PrivateKeyProvider = &meshconfig.PrivateKeyProvider{Provider: &meshconfig.PrivateKeyProvider_Cryptomb{
+			Cryptomb: &meshconfig.PrivateKeyProvider_CryptoMb{PollDelay: durationpb.New(7 * time.Millisecond)},
+		}}
+	}
+	s := txds.NewFakeDiscoveryServer(f, txds.FakeOptions{
+		ConfigString: keysConfig(variant),
+		KubernetesObjectStringByCluster: map[cluster.ID]string{
+			"Kubernetes": keysKube,
+			"cluster2":   keysKube2,
+		},
+		MeshConfig: m,
+		Gateways: []model.NetworkGateway{
+			{Network: "net1", Cluster: "Kubernetes", Addr: "1.1.1.100", Port: 15443},
+			{Network: "net2", Cluster: "cluster2", Addr: "2.2.2.100", Port: 15443},
+		},
+	})
+	w := &keysWorld{f: f, s: s, sds: newSDSGen(f, m, s.Discovery.Cache)}
+	quiet.Silence()
+	return w
+}
+
+func (w *keysWorld) close() { w.f.done() }
+
+// proxy attributes; "base" variants and single-attribute changes
+type pattrs struct {
+	ns       string
+	labels   map[string]string
+	network  string
+	cluster  string
+	locality [3]string
+	node     string
+	typ      model.NodeType
+	version  string
+	flags    map[string]bool
+	dnsDom   string
+}
+
+func basePattrs(variant int) pattrs {
+	p := pattrs{ns: "default", labels: map[string]string{"app": "client", "tier": "gold"}, network: "net1", cluster: "Kubernetes",
+		locality: [3]string{"region1", "zone1", "sub1"}, node: "node1", typ: model.SidecarProxy, version: "1.24.0", flags: map[string]bool{}}
+	switch variant % 4 {
+	case 1:
+		p.ns, p.network, p.locality = "ns-b", "net2", [3]string{"region2", "zone1", "sub1"}
+	case 2:
+		p.typ = model.Router
+	case 3:
+		p.labels = map[string]string{"app": "client", "tier": "silver", "patched": "yes"}
+		p.version = "1.19.0"
+	}
+	return p
+}
+
+var keyAttrs = []string{"namespace", "labels-tier", "labels-patched", "labels-scoped", "labels-app", "network", "cluster", "locality-region", "locality-zone",
+	"node", "type", "version", "flag-hbone-off", "flag-http10", "flag-dnscapture", "flag-dnsauto", "flag-certs", "dnsdomain",
+	"flag-proxyconfig", "flag-pkp-qat", "flag-pkp-cryptomb"}
+
+func (p pattrs) with(attr string) pattrs {
+	q := p
+	q.labels = map[string]string{}
+	for k, v := range p.labels {
+		q.labels[k] = v
+	}
+	q.flags = map[string]bool{}
+	for k, v := range p.flags {
+		q.flags[k] = v
+	}
+	flipLabel := func(k, a, b string) {
+		if q.labels[k] == a {
+			q.labels[k] = b
+		} else {
+			q.labels[k] = a
+		}
+	}
+	switch attr {
+	case "namespace":
+		if p.ns == "default" {
+			q.ns = "ns-b"
+		} else {
+			q.ns = "default"
+		}
+	case "labels-tier":
+		flipLabel("tier", "gold", "silver")
+	case "labels-patched":
+		flipLabel("patched", "yes", "no")
+	case "labels-scoped":
+		flipLabel("scoped", "yes", "no")
+	case "labels-app":
+		flipLabel("app", "client", "other")
+	case "network":
+		if p.network == "net1" {
+			q.network = "net2"
+		} else {
+			q.network = "net1"
+		}
+	case "cluster":
+		if p.cluster == "Kubernetes" {
+			q.cluster = "cluster2"
+		} else {
+			q.cluster = "Kubernetes"
+		}
+	case "locality-region":
+		if p.locality[0] == "region1" {
+			q.locality[0] = "region2"
+		} else {
+			q.locality[0] = "region1"
+		}
+	case "locality-zone":
+		if p.locality[1] == "zone1" {
+			q.locality[1] = "zone2"
+		} else {
+			q.locality[1] = "zone1"
+		}
+	case "node":
+		q.node = p.node + "x"
+	case "type":
+		if p.typ == model.SidecarProxy {
+			q.typ = model.Router
+		} else {
+			q.typ = model.SidecarProxy
+		}
+	case "version":
+		if p.version == "1.24.0" {
+			q.version = "1.19.0"
+		} else {
+			q.version = "1.24.0"
+		}
+	case "dnsdomain":
+		q.dnsDom = "other.svc.cluster.local"
+	default:
+		if strings.HasPrefix(attr, "flag-") {
+			q.flags[attr] = !p.flags[attr]
+		}
+	}
+	return q
+}
+
+func (w *keysWorld) proxy(a pattrs, id string) *model.Proxy {
+	md := &model.NodeMetadata{
+		Namespace:    a.ns,
+		Network:      network.ID(a.network),
+		ClusterID:    cluster.ID(a.cluster),
+		IstioVersion: a.version,
+		NodeName:     a.node,
+		Labels:       a.labels,
+	}
+	if a.flags["flag-hbone-off"] {
+		md.DisableHBONESend = true
+	}
+	if a.flags["flag-http10"] {
+		md.HTTP10 = "1"
+	}
+	if a.flags["flag-dnscapture"] {
+		md.DNSCapture = true
+	}
+	if a.flags["flag-dnsauto"] {
+		md.DNSCapture = true
+		md.DNSAutoAllocate = true
+	}
+	switch {
+	case a.flags["flag-pkp-qat"]:
+		md.ProxyConfig = &model.NodeMetaProxyConfig{PrivateKeyProvider: &meshconfig.PrivateKeyProvider{Provider: &meshconfig.PrivateKeyProvider_Qat{
+			Qat: &meshconfig.PrivateKeyProvider_QAT{PollDelay: durationpb.New(3 * time.Millisecond)},
+		}}}
+	case a.flags["flag-pkp-cryptomb"]:
+		md.ProxyConfig = &model.NodeMetaProxyConfig{PrivateKeyProvider: &meshconfig.PrivateKeyProvider{Provider: &meshconfig.PrivateKeyProvider_Cryptomb{
+			Cryptomb: &meshconfig.PrivateKeyProvider_CryptoMb{PollDelay: durationpb.New(5 * time.Millisecond)},
+		}}}
+	case a.flags["flag-proxyconfig"]:
+		// a ProxyConfig that says nothing about private key providers
+		md.ProxyConfig = &model.NodeMetaProxyConfig{Concurrency: nil, StatusPort: 15020}
+	}
+	if a.flags["flag-certs"] {
+		md.TLSClientCertChain, md.TLSClientKey, md.TLSClientRootCert = "/c/chain.pem", "/c/key.pem", "/c/root.pem"
+	}
+	p := &model.Proxy{
+		ID:               id + "." + a.ns,
+		Type:             a.typ,
+		ConfigNamespace:  a.ns,
+		Labels:           a.labels,
+		Metadata:         md,
+		IPAddresses:      []string{"10.9.9.9"},
+		Locality:         &corev3.Locality{Region: a.locality[0], Zone: a.locality[1], SubZone: a.locality[2]},
+		DNSDomain:        a.dnsDom,
+		VerifiedIdentity: &spiffe.Identity{TrustDomain: "cluster.local", Namespace: a.ns, ServiceAccount: "sa-client"},
+	}
+	return w.s.SetupProxy(p)
+}
+
+// generate runs the server's real CDS, EDS and RDS generators (which use the server's XdsCache).
+func (w *keysWorld) generate(p *model.Proxy) map[string]proto.Message {
+	out := map[string]proto.Message{}
+	req := &model.PushRequest{Forced: true, Push: w.s.PushContext(), Start: time.Now()}
+	add := func(prefix string, rs model.Resources) {
+		for _, r := range rs {
+			m, err := r.Resource.UnmarshalNew()
+			if err != nil {
+				panic(err)
+			}
+			out[prefix+"/"+r.Name] = m
+		}
+	}
+	cds, _, err := w.s.Discovery.Generators[v3.ClusterType].Generate(p, &model.WatchedResource{TypeUrl: v3.ClusterType}, req)
+	if err != nil {
+		panic(err)
+	}
+	add("cds", cds)
+	clusters := w.s.Clusters(p) // uncached generator of the test helper: only used to learn the EDS names
+	eds, _, err := w.s.Discovery.Generators[v3.EndpointType].Generate(p,
+		&model.WatchedResource{TypeUrl: v3.EndpointType, ResourceNames: sets.New(xdstest.ExtractEdsClusterNames(clusters)...)}, req)
+	if err != nil {
+		panic(err)
+	}
+	add("eds", eds)
+	routes := xdstest.ExtractRoutesFromListeners(w.s.Listeners(p))
+	rds, _, err := w.s.Discovery.Generators[v3.RouteType].Generate(p,
+		&model.WatchedResource{TypeUrl: v3.RouteType, ResourceNames: sets.New(routes...)}, req)
+	if err != nil {
+		panic(err)
+	}
+	add("rds", rds)
+	sds, _, err := w.sds.Generate(p,
+		&model.WatchedResource{TypeUrl: v3.SecretType, ResourceNames: sets.New("kubernetes://tls-a", "kubernetes://tls-a-cacert",
+			"kubernetes://ns-b/tls-a", "kubernetes://default/tls-a", "kubernetes://missing")}, req)
+	if err != nil {
+		panic(err)
+	}
+	add("sds", sds)
+	return out
+}
+
+func diffOutputs(a, b map[string]proto.Message) string {
+	var names []string
+	seen := map[string]bool{}
+	for k := range a {
+		names = append(names, k)
+		seen[k] = true
+	}
+	for k := range b {
+		if !seen[k] {
+			names = append(names, k)
+		}
+	}
+	sort.Strings(names)
+	for _, n := range names {
+		x, ok1 := a[n]
+		y, ok2 := b[n]
+		if !ok1 || !ok2 || !proto.Equal(x, y) {
+			return n
+		}
+	}
+	return ""
+}
+
+var keysEntries, keysShared int
+
+type keysStats struct {
+	pairs, sensitive, hits int
+	byAttr                 map[string][2]int
+}
+
+// runPair returns "eq" or "diff:<resource>"; sens reports whether generation distinguishes the two
+// proxies at all (cold outputs differ), i.e. whether the key had to distinguish them.
+func (w *keysWorld) runPair(first, second pattrs) (res string, sens bool) {
+	cache := w.s.Discovery.Cache
+	nkeys := func() int {
+		n := 0
+		for _, t := range typeOrder {
+			n += len(cache.Keys(t))
+		}
+		return n
+	}
+	cache.ClearAll()
+	pf := w.proxy(first, "first")
+	ps := w.proxy(second, "second")
+	coldFirst := w.generate(pf) // warms the cache with entries built for `first`
+	k1 := nkeys()
+	warm := w.generate(ps)
+	k2 := nkeys()
+	cache.ClearAll()
+	cold := w.generate(ps)
+	k3 := nkeys()
+	keysEntries += k3
+	keysShared += k3 - (k2 - k1) // entries of `second` that were served from what `first` had stored
+	sens = diffOutputs(coldFirst, cold) != ""
+	if os.Getenv("C06_DEBUG") != "" {
+		fmt.Fprintln(os.Stderr, "first-vs-second differs at:", diffOutputs(coldFirst, cold), "entries", k1, k2, k3)
+	}
+	if d := diffOutputs(warm, cold); d != "" {
+		return "diff:" + d, sens
+	}
+	return "eq", sens
+}
+
+func genKeys(seed uint64, n int, path string) {
+	out := wire.Create(path)
+	defer out.Close()
+	r := wire.NewRng(seed*31 + 0x6b657973)
+	for c := 0; c < n; c++ {
+		world := 0
+		if c > 0 {
+			world = r.Intn(256)
+			if r.Chance(1, 2) {
+				world &= r.Intn(256) // mostly few configs dropped
+			}
+			if r.Chance(1, 2) {
+				world |= 256 // mesh-wide default private key provider
+			}
+		}
+		base := c % 4
+		if c >= 4 {
+			base = r.Intn(4)
+		}
+		out.Line("case", strconv.Itoa(c), strconv.Itoa(world), strconv.Itoa(base))
+		for _, a := range keyAttrs {
+			out.Line("pair", a, wire.Pick(r, []string{"pq", "qp"}))
+		}
+	}
+}
+
+func execKeys(opsPath, outPath string) {
+	all := wire.ReadLines(opsPath)
+	out := wire.Create(outPath)
+	defer out.Close()
+	stats := map[string][2]int{}
+	var w *keysWorld
+	var base pattrs
+	for _, f := range all {
+		func() {
+			defer func() {
+				if r := recover(); r != nil {
+					out.Line("crash")
+					fmt.Fprintln(os.Stderr, "c06 keys: panic:", r)
+				}
+			}()
+			switch {
+			case f[0] == "case" && len(f) == 4:
+				if w != nil {
+					w.close()
+				}
+				wv, _ := strconv.Atoi(f[2])
+				bv, _ := strconv.Atoi(f[3])
+				w = newKeysWorld(wv)
+				base = basePattrs(bv)
+				out.Line("ok")
+			case f[0] == "pair" && len(f) == 3 && w != nil:
+				q := base.with(f[1])
+				first, second := base, q
+				if f[2] == "qp" {
+					first, second = q, base
+				}
+				res, sens := w.runPair(first, second)
+				st := stats[f[1]]
+				st[0]++
+				if sens {
+					st[1]++
+				}
+				stats[f[1]] = st
+				out.Line(res)
+			default:
+				out.Line("bad-op")
+			}
+		}()
+		out.Flush()
+	}
+	if w != nil {
+		w.close()
+	}
+	// sensitivity statistics for the evidence (not compared)
+	st := wire.Create(outPath + ".stats")
+	defer st.Close()
+	var names []string
+	for k := range stats {
+		names = append(names, k)
+	}
+	sort.Strings(names)
+	for _, k := range names {
+		st.Line(k, strconv.Itoa(stats[k][0]), strconv.Itoa(stats[k][1]))
+	}
+	st.Line("cache-entries-of-second", strconv.Itoa(keysEntries), "0")
+	st.Line("served-from-entries-of-first", strconv.Itoa(keysShared), "0")
+}
+
+// oracleKeys: the property clause itself ("no proxy receives a cached resource built for a proxy
+// whose relevant attributes differ") is what exec evaluates; the oracle re-evaluates every pair of a
+// case in both directions and reports the first difference.
+func oracleKeys(opsPath, outPath string) {
+	all := wire.ReadLines(opsPath)
+	out := wire.Create(outPath)
+	defer out.Close()
+	for _, c := range splitCases(all) {
+		verdict := "OK"
+		func() {
+			defer func() {
+				if r := recover(); r != nil {
+					verdict = "FAIL crash " + strings.ReplaceAll(fmt.Sprint(r), " ", "_")
+				}
+			}()
+			if len(c[0]) != 4 || c[0][0] != "case" {
+				return
+			}
+			wv, _ := strconv.Atoi(c[0][2])
+			bv, _ := strconv.Atoi(c[0][3])
+			w := newKeysWorld(wv)
+			defer w.close()
+			base := basePattrs(bv)
+			for _, f := range c[1:] {
+				if f[0] != "pair" || len(f) != 3 {
+					continue
+				}
+				q := base.with(f[1])
+				for _, dir := range [][2]pattrs{{base, q}, {q, base}} {
+					if res, _ := w.runPair(dir[0], dir[1]); res != "eq" {
+						verdict = fmt.Sprintf("FAIL shared-entry attr=%s world=%d base=%d %s", f[1], wv, bv, res)
+						return
+					}
+				}
+			}
+		}()
+		out.Line(verdict)
+		out.Flush()
+	}
+}
